@@ -9,3 +9,9 @@ check("C02", "exploration",
   "Trusts the control run (same program, seed, history without the save) as reference and the step-fuel/story-seed hooks. Save points in error states and fuel-exhausted runs are counted as inconclusive, not as held.",
   "lockstep metamorphic monitor: save -> fresh story -> load must be invisible at every history boundary",
   "DESIGN.md §4 C02")
+
+check("C09", "exploration",
+  "For generated programs and seeded valid host-call histories (incl. named flows, host assignments, observers on every global, a bound external, with and without an error handler) every kind of invalid call (23 kinds: continue/continue_async when finished, out-of-range and huge choice indices, undeclared variables, unknown/blank functions, unknown paths with and without call-stack reset, double bind, unbind of unbound, three kinds of bad saves, tags of a non-container, removal of the default/absent flow, removal of unregistered observers) is injected after EVERY position of the history. The monitor requires: no panic, Err for the kinds that must fail, no callback during the call, identical snapshot / all globals / all visit counts / canonical save right after it, identical later records (text, tags, choices, results, callback events) and final state as the control without the injection.",
+  "Control run without the injection is the reference. Idempotent removals may return Ok or Err but must change nothing. Sensitivity confirmed by reverting fix e261838 (7 distinct signatures fire).",
+  "lockstep metamorphic monitor: invalid call injected at every position x kind, compared with uninjected control",
+  "DESIGN.md §4 C09")
